@@ -280,7 +280,48 @@ fn narrow(t: &Ty, rng: &mut Rng) -> Ty {
 pub fn run(cfg: &Cfg, rep: &mut Report) {
     let deadline = Deadline::new(cfg.budget_s);
     let mut ctx = Ctx { rep };
-    let uni = universe_depth1();
+    let mut uni = universe_depth1();
+    // unions of two same-shaped structs / tuples / functions over {int, string} next to the single struct / tuple / function
+    // over the unions of their parts (a member-wise merge of such a union is a strictly larger type)
+    {
+        let base = [Ty::Int, Ty::Str];
+        let st = |a: &Ty, b: &Ty| {
+            let mut f = BTreeMap::new();
+            f.insert("a".to_string(), a.clone());
+            f.insert("b".to_string(), b.clone());
+            Ty::Struct(f)
+        };
+        let both = Ty::union([Ty::Int, Ty::Str]);
+        let mut extra: Vec<Ty> = Vec::new();
+        for a in &base {
+            for b in &base {
+                for c in &base {
+                    for d in &base {
+                        if (a, b) < (c, d) {
+                            extra.push(Ty::union([st(a, b), st(c, d)]));
+                            extra.push(Ty::union([Ty::Tup(vec![a.clone(), b.clone()]), Ty::Tup(vec![c.clone(), d.clone()])]));
+                            extra.push(Ty::union([Ty::fun(vec![a.clone()], b.clone()), Ty::fun(vec![c.clone()], d.clone())]));
+                        }
+                    }
+                }
+                extra.push(st(a, b));
+                extra.push(st(a, &both));
+                extra.push(st(&both, b));
+                extra.push(Ty::Tup(vec![a.clone(), both.clone()]));
+                extra.push(Ty::Tup(vec![both.clone(), b.clone()]));
+                extra.push(Ty::fun(vec![a.clone()], both.clone()));
+                extra.push(Ty::fun(vec![both.clone()], b.clone()));
+            }
+        }
+        extra.push(st(&both, &both));
+        extra.push(Ty::Tup(vec![both.clone(), both.clone()]));
+        extra.push(Ty::fun(vec![both.clone()], both.clone()));
+        for t in extra {
+            if !uni.contains(&t) {
+                uni.push(t);
+            }
+        }
+    }
     let n = uni.len();
     ctx.rep.add("universe_depth1_types", if cfg.shard == 0 { n as u64 } else { 0 });
     // real types: built through constructors and through parsing
